@@ -3,7 +3,7 @@
    the specification Dim/Sem.v.  See design/dim.md for what is proved and what is tied by
    correspondence only. *)
 From Coq Require Import String List ZArith QArith Qcanon Bool.
-From NV Require Import Dim.Model Dim.Infer Dim.Sem Dim.Proofs.
+From NV Require Import Dim.Model Dim.Infer Dim.Sem Dim.Proofs Dim.AcceptProofs Dim.CanonProofs.
 Import ListNotations.
 Open Scope string_scope.
 
@@ -46,6 +46,62 @@ Theorem C02_whole_input_accepted :
     check sts s = Ok (outs, s') /\ r = Some (run outs).
 Proof. exact @whole_input_accepted. Qed.
 Print Assumptions C02_whole_input_accepted.
+
+(* Accept-soundness for the arithmetic core (literals incl. the polymorphic 0, identifiers and
+   units, unary operators, + - -> * / ^const, comparisons, == !=, && ||, if, calls of functions
+   with monomorphic signatures; everything except list literals) in environments whose entries
+   are monomorphic (env_ok): if the elaborator accepts e with type t and the solver solves the
+   generated constraints with sigma, then in EVERY valuation that is an instance of sigma, gives
+   the Dim-bounded variables dimensions and is well-sorted, e has — by the declarative dimensional
+   analysis has_ty of Dim/Sem.v — exactly the dimension/type that t denotes, which is also what
+   the reported type `sigma t` denotes.  (Polymorphic environment entries and list literals are
+   outside this theorem; that every ground instance of the reported type arises from such a
+   valuation — idempotence of sigma — is not proved.) *)
+Theorem C02_accept_sound :
+  forall (e : expr) (s : tc) (t : ty) (ns : list ty) (s1 : tc) (sigma : subst) (dts : list var),
+    core e ->
+    elab_expr e s = Ok (t, ns, s1) ->
+    solve (tc_cs s1) = Ok (sigma, dts) ->
+    forall th : valuation,
+      respects th sigma ->
+      (forall v, In v dts -> is_sdim (th v)) ->
+      (forall c, In c (tc_cs s1) -> defined th c) ->
+      (forall m, In m ns -> tdef th m) ->
+      env_ok th (tc_env s) ->
+      exists a, tden th t = Some a /\ has_ty (sem_env th (tc_env s)) e a /\
+                forall t', tapply sigma t = Ok t' -> ts th t' a.
+Proof. exact accept_sound_expr. Qed.
+Print Assumptions C02_accept_sound.
+
+(* ... and for definitions (`let x = e`, `let x: T = e`, `unit u: T = e`): in addition the meaning of
+   the annotation equals the meaning derived for the expression. *)
+Theorem C02_accept_sound_annotated :
+  forall (e : expr) (ann : option annot) (s : tc) (t : ty) (ns : list ty) (s1 : tc)
+         (sigma : subst) (dts : list var),
+    core e ->
+    elaborate_inner e ann s = Ok (t, ns, s1) ->
+    solve (tc_cs s1) = Ok (sigma, dts) ->
+    forall th : valuation,
+      respects th sigma ->
+      (forall v, In v dts -> is_sdim (th v)) ->
+      (forall c, In c (tc_cs s1) -> defined th c) ->
+      (forall m, In m ns -> tdef th m) ->
+      env_ok th (tc_env s) ->
+      exists a, tden th t = Some a /\ has_ty (sem_env th (tc_env s)) e a /\
+        forall an ta b, ann = Some an -> type_from_annotation (tc_reg s) an = Ok ta ->
+                        tden th ta = Some b -> steq a b.
+Proof. exact accept_sound_inner. Qed.
+Print Assumptions C02_accept_sound_annotated.
+
+(* The representation invariant behind "the reported type equals the dimension": every factor list
+   produced by DType::try_canonicalize (hence by multiply / divide / power / from_factors) is
+   strictly sorted by the factor order (type variables, base dimensions, type parameters; by name)
+   and has no zero exponent — so Length^0 cannot survive as a type different from Scalar — and
+   canonicalising a canonical list changes nothing. *)
+Theorem C02_canonical_form :
+  forall l : dtype, canonical (canon l) /\ canon (canon l) = canon l.
+Proof. intro l. split; [apply canon_canonical|apply canon_idem]. Qed.
+Print Assumptions C02_canonical_form.
 
 (* ------------------------------------------------------------------ non-vacuity *)
 (* the constraints of `fn f(a, b) = a * b` (elaborate_expression, Mul with open operand types) *)
@@ -96,3 +152,25 @@ Example C02_whole_input_nonvacuous :
     /\ check_statement (SExpr (EBin OAdd (EUnit "meter") (EUnit "second"))) s1 = Err e
     /\ e = EIncompatibleDimensions.
 Proof. eexists; eexists; eexists. split; [vm_compute; reflexivity|]. split; vm_compute; reflexivity. Qed.
+
+(* accept-soundness is not vacuous: `2 meter / second + meter / second` in the two-unit
+   environment is accepted, its (here empty, all constraints trivially resolved) constraint set is
+   solved, and every valuation meets the hypotheses *)
+Definition ex_e : expr :=
+  EBin OAdd (EBin ODiv (EBin OMul (EScalar (qc 2)) (EUnit "meter")) (EUnit "second"))
+            (EBin ODiv (EUnit "meter") (EUnit "second")).
+Example C02_accept_nonvacuous :
+  exists t ns s1,
+    core ex_e /\ elab_expr ex_e ex_env0 = Ok (t, ns, s1) /\ solve (tc_cs s1) = Ok ([], [])
+    /\ ty_eqb t (TDim [(FBase "Length", Qc1); (FBase "Time", (- Qc1)%Qc)]) = true
+    /\ (forall th : valuation, respects th [] /\ (forall c, In c (tc_cs s1) -> defined th c)
+                               /\ (forall m, In m ns -> tdef th m) /\ env_ok th (tc_env ex_env0)).
+Proof.
+  eexists; eexists; eexists. split; [repeat constructor|].
+  split; [vm_compute; reflexivity|]. split; [vm_compute; reflexivity|]. split; [vm_compute; reflexivity|].
+  intro th. split; [intros ? ? []|]. split; [intros ? []|]. split.
+  - intros m Hm. simpl in Hm. unfold tdef.
+    repeat (destruct Hm as [<-|Hm]; [simpl; eauto|]). contradiction.
+  - intros x e. simpl. destruct (String.eqb x "meter"); [intro H; inversion H; subst; repeat split; unfold tdef; simpl; eauto|].
+    destruct (String.eqb x "second"); [intro H; inversion H; subst; repeat split; unfold tdef; simpl; eauto|discriminate].
+Qed.
